@@ -353,6 +353,60 @@ func c12Bytes(c *Ctx) {
 		})
 	}
 	c.Exhaustive("bytes: all 256 byte values alone and at each position of a valid sequence")
+	// All 65536 byte pairs (adjacent bytes may form one multi-byte UTF-8 rune,
+	// which string-based code sees as a single value), in 256 batches.
+	for hi := 0; hi < 256; hi++ {
+		c.Case(int64(256+hi), func(k *K) {
+			_, ok1 := refComplement(byte(hi))
+			for lo := 0; lo < 256; lo++ {
+				_, ok2 := refComplement(byte(lo))
+				s := []byte{'A', byte(hi), byte(lo), 'c'}
+				p1 := expectPanic(func() { sequtil.ReverseComplement(nil, s) })
+				p2 := expectPanic(func() { sequtil.ReverseComplementString(string(s)) })
+				if ok1 && ok2 {
+					if p1 || p2 {
+						k.Failf("unexpected-panic", "%q is over aAcCgGtTnN but caused a panic (ReverseComplement %v, String %v)", s, p1, p2)
+						return
+					}
+					if g, w := sequtil.ReverseComplementString(string(s)), string(refRevComp(s)); g != w {
+						k.Failf("revcomp-string", "ReverseComplementString(%q) = %q, want %q", s, g, w)
+						return
+					}
+				} else if !(p1 && p2) {
+					k.Input("bytes", fmt.Sprintf("%#x %#x", hi, lo))
+					k.Failf("missing-panic", "%q contains a byte outside aAcCgGtTnN but did not cause a panic (ReverseComplement %v, ReverseComplementString %v)", s, p1, p2)
+					return
+				} else {
+					k.Count("panics_observed", 1)
+				}
+			}
+			k.Evals(255)
+			k.DistinctBC(256)
+		})
+	}
+	c.Exhaustive("bytes: all 65536 adjacent byte pairs inside a valid sequence")
+	// Multi-byte UTF-8 encodings of random code points embedded in valid sequences.
+	c.Case(512, func(k *K) {
+		r := k.Rand()
+		for i := 0; i < 20000; i++ {
+			cp := rune(0x80 + r.IntN(0x10FFFF-0x80))
+			if r.IntN(2) == 0 {
+				cp = rune(0x80 + r.IntN(0x800)) // two-byte encodings
+			}
+			enc := []byte(string(cp))
+			s := append(append([]byte("acGT"), enc...), "Nn"...)
+			p1 := expectPanic(func() { sequtil.ReverseComplement(nil, s) })
+			p2 := expectPanic(func() { sequtil.ReverseComplementString(string(s)) })
+			if !(p1 && p2) {
+				k.Input("code_point", fmt.Sprintf("U+%04X", cp))
+				k.Failf("missing-panic", "%q contains the UTF-8 encoding of U+%04X but did not cause a panic (ReverseComplement %v, ReverseComplementString %v)", s, cp, p1, p2)
+				return
+			}
+			k.Evals(1)
+		}
+		k.Count("utf8_sequences_rejected", 20000)
+		k.Nontrivial([]byte("utf8"))
+	})
 }
 
 var _ *rand.Rand
